@@ -20,6 +20,14 @@ Variable lines : list N.      (* the line table, ascending *)
 
 Definition line_of (p : N) : N := fst (line_info lines p).
 
+(* Parser.comments.push guarded by `last.pos < pos`: a comment scanned again
+   after a rollback is already recorded (newest first) *)
+Definition record_comment (c : comment) (all : list comment) : list comment :=
+  match all with
+  | [] => [c]
+  | (lastpos, _) :: _ => if lastpos <? fst c then c :: all else all
+  end.
+
 (* the `while let Some((pos, Token::Comment(text))) = pos_tok` loop *)
 Fixpoint comment_loop (line : N) (d : cstate) (g : list comment) : cstate :=
   match g with
@@ -28,7 +36,7 @@ Fixpoint comment_loop (line : N) (d : cstate) (g : list comment) : cstate :=
       let lead := if line + 1 <? line_of pos then [] else c_lead d in
       let ended := pos + lenN text in
       comment_loop (line_of ended)
-        {| c_all := (pos, text) :: c_all d; c_lead := (pos, text) :: lead |} g'
+        {| c_all := record_comment (pos, text) (c_all d); c_lead := (pos, text) :: lead |} g'
   end.
 
 Definition p_next (d : cstate) (g : list comment) (tokpos : option N) : cstate :=
@@ -50,11 +58,13 @@ Definition p_line_end (d : cstate) (semi : N) (g : list comment) (next_start : o
   match g with
   | [] => (c, g, match next_start with Some _ => cleared | None => d end)
   | (pos, text) :: g' =>
-      if line_of semi =? line_of pos then (c ++ [(pos, text)], g', cleared)
+      if line_of semi =? line_of pos
+      then (c ++ [(pos, text)], g',
+            {| c_all := record_comment (pos, text) (c_all d); c_lead := [] |})
       else (c, g, cleared)
   end.
 
-Definition policy_ops : ops N (list comment) cstate (list comment) comment :=
+Definition policy_ops : ops N (list comment) cstate (list comment) :=
   {| d_next := p_next;
      d_goback := fun d => d;
      d_drain := p_drain;
